@@ -1,5 +1,7 @@
 import numpy as np
 
+from skglm import _verif
+
 
 class AndersonAcceleration:
     """Abstraction of Anderson Acceleration.
@@ -41,5 +43,7 @@ class AndersonAcceleration:
 
         # extrapolate
         C = inv_UTU_ones / np.sum(inv_UTU_ones)
+        if _verif.ENABLED:
+            _verif.emit("anderson", arr_w=self.arr_w_, arr_Xw=self.arr_Xw_, C=C)
         # floating point errors may cause w and Xw to disagree
         return self.arr_w_[:, 1:] @ C, self.arr_Xw_[:, 1:] @ C, True
